@@ -10,6 +10,7 @@ import (
 
 func init() {
 	register("c05", Def{
+		Debug: true,
 		Rule: "seeded abstract progressions (degree 1..7 with none/#/b, symbols, slash bass, rests, several fractions, metadata, {key=K} changes anywhere incl. on rests) rendered as one degree text " +
 			"and one note-name text per start key (all keys in which every note is spellable; quick: up to 6 keys, thorough: all 28); the spec first re-derives that the renderings denote the same " +
 			"progression; real `text conv degree` / `text conv syllable --key K` must agree. Plus exhaustive single chords: 28 keys x 21 degrees (1..7 x none/#/b: what note names can express). distinct = distinct progressions",
